@@ -212,11 +212,25 @@ func reached(ro *v1beta1.Rollout, ev *UserEvent) bool {
 	return stepRank(sub.CurrentStepState) >= stepRank(v1beta1.CanaryStepState(ev.AtState))
 }
 
+// brReadyFor: the BatchRelease reports the batch of the Rollout's current step Ready (authoritative).
+func (u *User) brReadyFor(ro *v1beta1.Rollout) bool {
+	br, _ := u.sim.Store.Peek(ObjKey{GK: gkBR, NS: ro.Namespace, Name: ro.Name}).(*v1beta1.BatchRelease)
+	sub := ro.Status.GetSubStatus()
+	return br != nil && sub != nil && br.Status.CanaryStatus.CurrentBatchState == v1beta1.ReadyBatchState && br.Status.CanaryStatus.CurrentBatch+1 == sub.CurrentStepIndex
+}
+
 func (u *User) eventOptions(ro *v1beta1.Rollout) []option {
 	var opts []option
 	for i := range u.sc.Events {
 		ev := &u.sc.Events[i]
 		if ev.Done {
+			continue
+		}
+		if ev.Kind == "edit-plan-current" && ev.AtState == "StepUpgrade" && !(reached(ro, ev) && u.brReadyFor(ro)) {
+			// narrow window on purpose: the batch is already Ready but the Rollout has not consumed it yet
+			if sub := ro.Status.GetSubStatus(); sub != nil && (int(sub.CurrentStepIndex) > ev.AtStep || stepRank(sub.CurrentStepState) > 1) && reached(ro, ev) {
+				ev.AtState = "StepTrafficRouting" // window missed: fall back to an ordinary trigger
+			}
 			continue
 		}
 		if ev.After != "" {
